@@ -495,8 +495,17 @@ func c03AcrossReconnect() func() {
 				c03Deliver(sock, c03Channel+1, 0, st)
 			}
 		})
+		// a second application goroutine calls Send while telegram 1 is pending: it queues behind it
+		// and makes its first transmission after the reconnect - on the new channel
+		done5 := mc.NewChan[int](1, "c03.done5")
+		mc.GoEnv("app2", func() {
+			mc.Sleep(3 * ms)
+			send(5)
+			done5.Send(1)
+		})
 		mc.Sleep(1 * ms)
 		send(1) // pending across the reconnect
+		done5.Recv()
 		mc.Sleep(500 * ms)
 		send(2)
 		send(3)
@@ -523,6 +532,15 @@ func c03AcrossReconnectOracle(tr *mc.Trace) []h.Violation {
 				}
 			case *knxnet.TunnelReq:
 				id := MsgID(y.Payload)
+				if id == 5 && !seen[id] {
+					// (its sequence number is not judged: it may run before the counter is reset, which
+					// is the known finding of C09)
+					seen[id] = true
+					if reconnected >= 0 && y.Channel != c03Channel+1 {
+						bad("stale-channel:queued-send", "request id=5, queued behind the pending Send and first transmitted at %v, after the reconnect at %v, carries channel %d; the connection's channel is %d", e.T, reconnected, y.Channel, c03Channel+1)
+					}
+					continue
+				}
 				if id >= 2 && !seen[id] {
 					seen[id] = true
 					if y.Channel != c03Channel+1 {
@@ -535,7 +553,9 @@ func c03AcrossReconnectOracle(tr *mc.Trace) []h.Violation {
 			if x.Call == "Send" && x.ID == 1 && x.Err == "" {
 				bad("success-without-ack:across-reconnect", "Send of telegram 1 (request channel %d, sequence number 1) reported success although no acknowledgement for that channel and number was ever delivered; the only acknowledgement around was for the new connection (channel %d, number 0)", c03Channel, c03Channel+1)
 			}
-			if x.Call == "Send" && x.ID >= 2 && x.Err != "" {
+			// (telegram 5 is not judged here: queued behind telegram 1 it holds the sender's lock while the
+			// connection server waits for that lock and reads no acknowledgements - C09's known finding)
+			if x.Call == "Send" && x.ID >= 2 && x.ID != 5 && x.Err != "" {
 				bad("send-fails-after-reconnect", "Send of telegram %d after the reconnect failed: %s", x.ID, x.Err)
 			}
 		}
